@@ -64,6 +64,14 @@ class Op:
         self.name, self.packet, self.fn, self.states, self.kind, self.second, self.expect_refusal = name, packet, fn, states, kind, second, expect_refusal
 
 
+def _alias_copy(q, o, view):
+    """take a view, overwrite the base in place, read the view: aliasing must behave as for plain tensors"""
+    base = q.clone()
+    v = view(base)
+    base.copy_(o)
+    return v
+
+
 def catalogue():
     """list of Op. fn(q, other) -> result, applied identically to the quantized operands and to their dequantized values.
     second: None | 'same-scale' | 'diff-scale' | 'plain' (kind of the second operand)"""
@@ -92,6 +100,9 @@ def catalogue():
         Op("lt-diff-scale", a.lt, lambda q, o: q < o, ["pt8"], "compare", "diff-scale"),
         Op("lt-plain", a.lt, lambda q, o: q < o, ["pt8", "ax0"], "compare", "plain"),
         Op("copy_-quantized", a.copy_, lambda q, o: q.clone().copy_(o), ["pt8", "ptf8"], "move2", "diff-scale"),
+        Op("alias-t-then-copy_", a.copy_, lambda q, o: _alias_copy(q, o, lambda z: z.t()), ["pt8", "ptf8"], "move2", "diff-scale"),
+        Op("alias-detach-then-copy_", a.copy_, lambda q, o: _alias_copy(q, o, lambda z: z.detach()), ["pt8"], "move2", "diff-scale"),
+        Op("alias-select-then-copy_", a.copy_, lambda q, o: _alias_copy(q, o, lambda z: z[0]), ["pt8"], "move2", "diff-scale"),
         Op("copy_-into-plain", a.copy_, lambda q, o: o.clone().copy_(q), ["pt8", "ax0"], "move", "plain"),
         Op("div-scalar", a.div, lambda q, o: q / 3.0, ALL8, "rescale"),
         Op("div-0dim", a.div, lambda q, o: q / torch.tensor(2.5), ["pt8", "ax0"], "rescale"),
